@@ -46,7 +46,7 @@ def gen_cases(tier, seed):
     cases = list(cl.all_triples())
     for s in cl.FIXED_SOURCES:
         cases.append("S " + cl.hx(s))
-    for s in cl.source_cases(rng, 40000 if tier == "thorough" else 3500):
+    for s in cl.source_cases(rng, 120000 if tier == "thorough" else 3500):
         cases.append("S " + cl.hx(s))
     for n, s in cl.loop_family(50 if tier == "thorough" else 12):
         cases.append(("R %d %s" % (n, cl.hx(s))) if n is not None else "S " + cl.hx(s))
